@@ -209,6 +209,39 @@ claim("C12",
       TRUST + "; Dummy provider subclass with a fault/nesting counter in the harness",
       "DESIGN.md section 4 (C12)")
 
+# round-4 additions (appended to the claim texts above)
+EXTRA = {
+    "C03": "Every witness is replayed three ways on the unmodified library: the same history through the holder API, an SQL rendering whose "
+           "statements carry column lineage (SELECT *) and one whose statements do not (SELECT 1).",
+    "C04": "A write-back chain (a value written back to the table it came from through a helper table, so that a path visits two columns "
+           "of one table) is among the chain shapes.",
+    "C05": "Split-kernel piece texts agree with their first token (statement pieces start with it, after their comment if any; the rest is free).",
+    "C06": "Role scripts with DROP / RENAME among data-moving statements (a table filled from constants only that is dropped later; a renamed "
+           "chain member) are included.",
+    "C10": "After a library exception every accessor of the SAME runner object is asked again and must stay within the contract; silent mode is "
+           "also decided under dialect tsql in TSQL_NO_SEMICOLON mode.",
+    "C11": "Builtin sets handed to networkx as node bunches (out_edges(nbunch=...), subgraph, degree) follow the symbolic order too; templates "
+           "with two relations of one FROM clause that may share their bare name (un-aliased tables of two schemas, a CTE and a qualified table).",
+    "C12": "The frame audit also runs statements with un-aliased derived tables (names the library generates itself) and asserts that two "
+           "freshly built providers / analyzers (Dummy, SQLAlchemy on sqlite://, sqlfluff, sqlparse) share no mutable attribute object.",
+    "C13": "INSERT whose query is parenthesised or starts with WITH (a bracketed child like a column list), CREATE VIEW, and the metadata rules "
+           "under further grammars (postgres, redshift, impala, sparksql, snowflake, tsql, mysql) whose statement types differ.",
+    "C14": "A fifth mechanism: analysed inside the scoped override, every result (tables, pairs, both exports) read after the scope has ended.",
+    "C15": "The environment may also set the bool key of the step proof to a non-default value and the acting thread's stored text may equal the "
+           "key's built-in default (an override back to the default still wins over the environment).",
+    "C17": "Additional instances configure the SQL directory AT the working directory or at its parent (what `sqllineage -g -f x.sql` sets up), "
+           "with '~' in the segment alphabet and os.path.expanduser / Path.expanduser part of the model (HOME is a directory of the scratch "
+           "tree outside every root); deep-root instances use a parent directory the segment alphabet can spell.",
+    "C18": "Scripts with the textually same derived table under two aliases, a directory path written with and read without a trailing slash, "
+           "and DROP / RENAME role scripts are included.",
+}
+GUARDS = ("Vacuity guards per harness instance: at least one path must reach the property assertion, and a sensitivity twin (the same harness "
+          "with the implementation's first observation perturbed the way a wrong implementation would be) must come back 'violated'; "
+          "either failing is a harness error (exit 3), counted in evidence as sensitivity_twins.")
+for _pid in list(CLAIMED):
+    _t, _n, _r = CLAIMED[_pid]
+    CLAIMED[_pid] = ((_t + " " + EXTRA[_pid]) if _pid in EXTRA else _t, _n + "; " + GUARDS, _r)
+
 ALL = ["C%02d" % i for i in range(1, 19)]
 
 
